@@ -53,7 +53,7 @@ Qed.
 
 Lemma sech_asech : forall x, 0 < x <= 1 -> nbt_sech (nbt_asech x) = x.
 Proof.
-  intros x [H0 H1]. unfold nbt_sech, nbt_asech.
+  intros x [H0 H1]. unfold nbt_sech, nbt_asech, nbt_sqrt.
   assert (Hi : 1 <= 1 / x).
   { apply (Rmult_le_reg_r x); [assumption|]. replace (1 / x * x) with 1 by (field; lra). lra. }
   set (s1 := sqrt (1 / x - 1)). set (s2 := sqrt (1 / x + 1)).
@@ -74,7 +74,7 @@ Qed.
 
 Lemma csch_acsch : forall x, x <> 0 -> nbt_csch (nbt_acsch x) = x.
 Proof.
-  intros x Hx. unfold nbt_csch, nbt_acsch.
+  intros x Hx. unfold nbt_csch, nbt_acsch, nbt_sqrt.
   assert (Hsq : 0 < 1 / x ^ 2).
   { apply Rdiv_lt_0_compat; [lra|]. simpl. rewrite Rmult_1_r.
     destruct (Rtotal_order x 0) as [L|[L|L]]; [|contradiction|]; nra. }
@@ -92,4 +92,41 @@ Proof.
     rewrite S, T. ring. }
   unfold sinh. rewrite exp_Ropp, exp_ln by assumption. rewrite Hinv.
   replace (w - (s - t)) with (2 * t) by (unfold w; ring). unfold t. field. assumption.
+Qed.
+
+Lemma inv_abs_le_1 : forall x, (1 <= x \/ x <= -1) -> -1 <= 1 / x <= 1.
+Proof.
+  intros x [H|H].
+  - assert (0 < 1 / x) by (apply Rdiv_lt_0_compat; lra).
+    assert (1 / x <= 1).
+    { apply (Rmult_le_reg_r x); [lra|]. replace (1 / x * x) with 1 by (field; lra). lra. }
+    lra.
+  - assert (1 / x < 0).
+    { replace (1 / x) with (- (1 / - x)) by (field; lra).
+      assert (0 < 1 / - x) by (apply Rdiv_lt_0_compat; lra). lra. }
+    assert (-1 <= 1 / x).
+    { replace (1 / x) with (- (1 / - x)) by (field; lra).
+      assert (1 / - x <= 1).
+      { apply (Rmult_le_reg_r (- x)); [lra|]. replace (1 / - x * - x) with 1 by (field; lra). lra. }
+      lra. }
+    lra.
+Qed.
+
+Lemma sec_arcsec : forall x, (1 <= x \/ x <= -1) -> nbt_secant (nbt_arcsecant x) = x.
+Proof.
+  intros x H. unfold nbt_secant, nbt_arcsecant.
+  rewrite cos_acos by (apply inv_abs_le_1; assumption). field. destruct H; lra.
+Qed.
+
+Lemma csc_acsc : forall x, (1 <= x \/ x <= -1) -> nbt_csc (nbt_acsc x) = x.
+Proof.
+  intros x H. unfold nbt_csc, nbt_cosecant, nbt_acsc.
+  rewrite sin_asin by (apply inv_abs_le_1; assumption). field. destruct H; lra.
+Qed.
+
+Lemma sqrt_sqr_inv : forall x, 0 <= x -> nbt_sqrt (nbt_sqr x) = x /\ nbt_sqr (nbt_sqrt x) = x.
+Proof.
+  intros x H. unfold nbt_sqrt, nbt_sqr. split.
+  - apply sqrt_pow2. assumption.
+  - apply pow2_sqrt. assumption.
 Qed.
